@@ -70,7 +70,7 @@ func Compile(scratch string, idx int, text []byte, mtime int64) *Built {
 		// compiler options vary with the file: the bulk builder, batches of default size, and tiny
 		// batches with several in flight (record sets then straddle batch boundaries)
 		opts := rdb.CompilationOptions{NumCPU: 1, UseV2KeySyntax: v2, UseBuilder: idx%4 == 0}
-		if SmallBatchEvery > 0 && idx%SmallBatchEvery == 1 {
+		if SmallBatchEvery > 0 && idx%SmallBatchEvery == SmallBatchEvery-1 {
 			opts = rdb.CompilationOptions{NumCPU: 4, UseV2KeySyntax: v2, BatchSize: 1, BatchNumParallel: 8}
 		}
 		if _, err := rdb.CompileToSpecificRDBVersion(in, dir, opts); err != nil {
